@@ -55,6 +55,12 @@ func c07Scenarios(tier string) []*Scenario {
 	add("bare", []Spec{T}, []Out{{Err: E1, Block: true}})
 	add("bare", []Spec{T}, []Out{{V: 1, Block: true, Dur: L}})
 	add("bare", []Spec{T}, []Out{{V: 1, Dur: L, Coop: true}})
+	// a zero or negative limit (an exhausted budget): exceeded at once
+	for _, l := range []time.Duration{0, -1, -time.Second} {
+		add("bare-nonpositive-limit", []Spec{{Kind: KTimeout, Limit: l}}, []Out{{V: 1, Block: true}})
+		add("bare-nonpositive-limit", []Spec{{Kind: KTimeout, Limit: l}}, []Out{{V: 1, Dur: 30}})
+		add("retry(nonpositive-limit)", []Spec{{Kind: KRetry, MaxRetries: 1}, {Kind: KTimeout, Limit: l}}, []Out{{V: 1, Block: true}})
+	}
 	// Retry(Timeout): the limit applies afresh to each attempt
 	R := Spec{Kind: KRetry, MaxRetries: 2}
 	for _, first := range []Out{{Block: true, V: 1}, {Err: E1, Dur: L}, {Err: E1, Dur: L + 1}, {Err: E1, Dur: L - 1}} {
